@@ -553,6 +553,8 @@ def stage_cases(tier, seed):
                                 for k in range(-1, n):
                                     if Ln == "zero" and cn == "0" and k >= 0 and tau != TAUS[0]:
                                         continue       # F == 0: one tau is enough
+                                    if cn == "0" and k < 0 and (tau != TAUS[0] or Ln != "zero"):
+                                        continue       # x = 0 and c = 0: F(x) = 0, nothing happens
                                     base = {"part": "stage", "family": fam, "method": m, "M": Mk, "L": Ln, "c": cn,
                                             "n": n, "tau": tau, "x": k, "seed": seed}
                                     cases.append(base)
